@@ -223,6 +223,12 @@ def check(prop, tier):
         if cr["stats"]["tlc_errors"] or cr["stats"]["machinery"]:
             common.machinery("check/report family: %s %s" % (cr["stats"]["tlc_errors"][:2], cr["stats"]["machinery"][:1]))
         mine += [f for f in cr["findings"] if f["property"] == prop]
+        import batchfam
+
+        br = batchfam.collect(tier)
+        if br["stats"]["tlc_errors"]:
+            common.machinery("batch family: %s" % br["stats"]["tlc_errors"][:2])
+        mine += [f for f in br["findings"] if f["property"] == prop]
     known_hits, new = F.split_known(mine, prop)
     rc = common.report(prop, known_hits, new, lambda f: F.write_replay(prop, f))
     design = [d for d in r["design"] if prop in d["props"]]
